@@ -367,9 +367,12 @@ class Parallel:
                 worker_name = None
                 in_thread_results = None
 
+                # once every worker has been reaped nothing can be added to done_queue any more,
+                # so only a poll that starts after that point and finds nothing proves it is drained
+                no_producers = not pool
                 queue_empty = False
                 try:
-                    worker_name, _, in_thread_results, exc = done_queue.get(True, 1)
+                    worker_name, _, in_thread_results, exc = done_queue.get(not no_producers, 1)
                     last_task_ts = time.monotonic()
                 except queue.Empty:
                     queue_empty = True
@@ -419,7 +422,7 @@ class Parallel:
                         for result in self._run_callbacks(in_thread_result)
                     ]
 
-                if not pool:
+                if no_producers and queue_empty:
                     break
 
                 for name in retired_workers:
